@@ -262,14 +262,6 @@ EXPORT errno_t _strncat_s_chk(char *restrict dest, rsize_t dmax,
         }
 
         while (dmax > 0) {
-            if (unlikely(src == overlap_bumper)) {
-                handle_error(orig_dest, orig_dmax,
-                             "strncat_s: "
-                             "overlapping objects",
-                             ESOVRLP);
-                return RCNEGATE(ESOVRLP);
-            }
-
             /*
              * Copying truncated
              */
@@ -289,6 +281,14 @@ EXPORT errno_t _strncat_s_chk(char *restrict dest, rsize_t dmax,
                 *dest = '\0';
 #endif
                 return RCNEGATE(EOK);
+            }
+
+            if (unlikely(src == overlap_bumper)) {
+                handle_error(orig_dest, orig_dmax,
+                             "strncat_s: "
+                             "overlapping objects",
+                             ESOVRLP);
+                return RCNEGATE(ESOVRLP);
             }
 
             *dest = *src;
